@@ -930,6 +930,59 @@ def run(pid, tier, replay=None):
         rc_ = wireforms.stage(chk, quick, rng, pid)
         if rc_:
             return rc_
+        # ---- readers of a chain state leave it as it is: the wallet building spends (twice, the first one still unconfirmed), the balance
+        #      query, the miner's block assembly, the fork listing -- afterwards every stored block's unspent outputs and per-key balances
+        #      (value and reference list) project to what they projected to before
+        import skepticoin.wallet as W_
+        import skepticoin.consensus as c_
+        from skepticoin.signing import SECP256k1PublicKey as PK_
+        sk.apply_cfg(cfg_model)
+        rfacts = []
+        for i in range(6 if quick else 60):
+            w_r = sk.World(cfg_model, keys, tag=b"rd%d" % i)
+            rec_r = ledger_drv.Recorder(w_r, 7000 + i, full=False, snapshots=False)
+            rec_r.start(w_r.make_genesis(miner=rng.choice([1, 2])))
+            rt_r = RandomTree(w_r, rec_r, rng, nkeys=3, p_mut=0.0)
+            for _ in range(rng.randint(4, 9)):
+                rt_r.step()
+            cs_r = rec_r.cs
+
+            def proj(cs_):
+                out = {}
+                for h_ in cs_.block_by_hash:
+                    u_ = sorted((r.hash, r.index, o.value, o.public_key.public_key) for r, o in cs_.unspent_transaction_outs_by_hash[h_].items())
+                    try:
+                        b_ = sorted((pk.public_key, bal.value, tuple(sorted((r.hash, r.index) for r in bal.output_references)))
+                                    for pk, bal in cs_.public_key_balances_by_hash[h_].items())
+                    except Exception as e_:
+                        b_ = repr(e_)
+                    out[h_] = (u_, b_)
+                return out
+            before = proj(cs_r)
+            wal = W_.Wallet.empty()
+            for k_ in (1, 2, 3):
+                wal.keypairs[keys.pub[k_]] = keys.sk[k_].to_string()
+                wal.unused_public_keys.append(keys.pub[k_])
+            notes = []
+            for amount in (1, 2, 1):
+                try:
+                    W_.create_spend_transaction(wal, cs_r, amount, 0, keys.public_key(3), keys.public_key(2))
+                    notes.append("tx")
+                except Exception as e_:
+                    notes.append(type(e_).__name__)
+            try:
+                wal.get_balance(cs_r)
+                cs_r.forks()
+                c_.construct_block_pow_evidence_input(cs_r, [], PK_(keys.pub[1]), cs_r.head().timestamp + 1, b"", 1)
+            except Exception as e_:
+                notes.append("reader raised %r" % e_)
+            rfacts.append({"clause": "C03:chain_state_snapshot_changed_by_a_reader", "holds": proj(cs_r) == before, "what": "readers on a %d-block tree: %s" % (len(cs_r.block_by_hash), notes)})
+            chk.case(("readers", i), nontrivial=notes.count("tx") >= 2)
+        from harness import tracecheck as _tc
+        vrf, rrf = _tc.run("TraceFacts", rfacts, {}, ids=[1], workers=1, timeout=300)
+        chk.traces_validated += 1
+        for (line, clause) in tlc.tagged(rrf, "FINDING")[:3]:
+            chk.violation(clause, {"run": rfacts[line - 1]["what"]}, {"clause": clause})
     if pid in ("C01", "C02", "C05"):
         # ---- the verdict of full validation is a function of (block, chain, clock) -- also while the miner's thread assembles a candidate
         #      from the same chain state and a pending transaction (Interfere.tla; preemption-point exploration on real threads)
@@ -1002,6 +1055,56 @@ def run(pid, tier, replay=None):
               "C05": lambda w_, b_: w_.concretise(dict(blkd(12, 1, 2, [cbd(12, 2, 4)]), ts=b_[1].timestamp))}[pid]
         handover.stage_adversarial(chk, quick, rng, pid, cfg_i, keys, nodechk.build_universe, mk,
                                    {"C01": "spend_not_authorised_by_the_owner", "C02": "reward_above_subsidy_plus_fees", "C05": "timestamp_not_later_than_the_parent_s"}[pid])
+        sk.restore_cfg()
+    if pid in ("C01", "C05"):
+        # ---- wide shapes: a reward spread over 70 outputs; a spend of 40 of them whose 36th signature does not verify (C01); the node's own
+        #      assembly of a block from 63 pending transactions -- 64 transactions, a count at an octet boundary of the length encoding (C05)
+        from checks.store import blk as blkd_, tx as txd_
+        import skepticoin.consensus as c_w
+        from skepticoin.datatypes import Block as Block_, BlockHeader as BlockHeader_
+        from skepticoin.signing import SECP256k1PublicKey as PK_w
+        cfg_w = sk.Cfg(period=1000, timespan=4, initial_subsidy=10 ** 4, halving=10 ** 6, max_money=10 ** 12)
+        sk.apply_cfg(cfg_w)
+        w_w = sk.World(cfg_w, keys, tag=b"wide")
+        rec_w = ledger_drv.Recorder(w_w, 960000, full=False, snapshots=False)
+        g_w = w_w.make_genesis()
+        rec_w.start(g_w)
+        cbw = {"id": 10, "ins": [{"ref": {"tx": -1, "idx": 0}, "kind": "cbdata", "signer": -1, "cbh": 1, "small": True}],
+               "outs": [{"v": 100, "k": 1}] * 70, "sizeok": True, "mut": ""}
+        d1 = dict(blkd_(1, 0, 1, [cbw]), ts=11)
+        b1_w = w_w.concretise(d1)
+        rec_w.add(b1_w, 11, validated=True, label={"act": "add", "mut": "", "parent": 0, "id": 1})
+        if pid == "C01":
+            good = txd_(21, [(10, i_, 1) for i_ in range(40)], [(4000, 2)])
+            bad = dict(txd_(31, [(10, i_, 1) for i_ in range(40)], [(4000, 2)]), mut="sig_garbage", _owner={35: 1})
+            bad["ins"][35]["signer"] = -1
+            cb2 = lambda bid: {"id": bid * 10, "ins": [{"ref": {"tx": -1, "idx": 0}, "kind": "cbdata", "signer": -1, "cbh": 2, "small": True}],
+                               "outs": [{"v": cfg_w.subsidy(2), "k": 1}], "sizeok": True, "mut": ""}
+            for bid, t_ in ((3, bad), (2, good)):
+                d_ = dict(blkd_(bid, 1, 2, [cb2(bid), {k_: v_ for k_, v_ in t_.items() if k_ != "_owner"}]), ts=12)
+                x_ = w_w.concretise(d_, owners={1: t_.get("_owner", {})})
+                rec_w.add(x_, 12, validated=True, label={"act": "add", "mut": t_.get("mut", ""), "parent": 1, "id": bid})
+        else:
+            pend = []
+            for i_ in range(63):
+                td_ = dict(txd_(100 + i_, [(10, i_, 1)], [(99, 2)]), _owner={0: 1})
+                pend.append(w_w.concretise_tx(td_))
+                w_w.tx_by_abs[100 + i_] = pend[-1]
+            summ_, h_, txs_ = c_w.construct_block_pow_evidence_input(rec_w.cs, pend, PK_w(keys.pub[1]), 12, b"", 1)
+            found_ = None
+            for nonce_ in range(1, 400):
+                summ_, h_, txs_ = c_w.construct_block_pow_evidence_input(rec_w.cs, pend, PK_w(keys.pub[1]), 12, b"", nonce_)
+                sh_ = c_w.construct_summary_hash(summ_, h_)
+                ev_ = c_w.construct_pow_evidence_after_scrypt(sh_, rec_w.cs, summ_, h_, txs_)
+                cand_ = Block_(BlockHeader_(summ_, ev_), txs_)
+                if cand_.hash() < summ_.target:
+                    found_ = cand_
+                    break
+            if found_ is None:
+                return machinery_failure(pid, "no candidate of 64 transactions below its target")
+            rec_w.add(found_, 12, validated=True, assembled=True, label={"act": "assembled", "mut": "", "height": 2, "transactions": len(found_.transactions)})
+        chk.case(("wide", pid), nontrivial=True)
+        judge(chk, [rec_w.trace()], [rec_w], cfg_w, focus)
         sk.restore_cfg()
     if pid in ("C01", "C02"):
         # ---- the same rules on the node's delivery path: random trees with every alteration class pushed by peers, some of them while the
